@@ -177,6 +177,11 @@ type analysis struct {
 	// Waits: per handler package, mutexes held across a wait for the peer / taken on the serve
 	// goroutine (waitfacts.go)
 	Waits []*waitFact
+	// ChanOps: channel operations on the serve goroutine (chanfacts.go)
+	ChanOps []chanOp
+	// RequestHelpers: exported functions of the handler / helper packages that wait for the
+	// peer's answer (chanfacts.go requestHelpers)
+	RequestHelpers []string
 }
 
 func recvName(fd *ast.FuncDecl) string {
@@ -266,9 +271,15 @@ func analyseScopeDerived(repo string, scope map[string]func(file string) bool, a
 		an.Cancels = append(an.Cancels, cancelFactsOf(l, scope[rel])...)
 		if rel != "" {
 			an.HeldSends = append(an.HeldSends, heldAcrossSend(l, scope[rel])...)
-			if wf := waitFactsOf(l); wf != nil {
+			wf, ops, helpers := waitFactsOfX(l, fset)
+			if wf != nil {
 				an.Waits = append(an.Waits, wf)
 			}
+			for i := range ops {
+				ops[i].File = strings.TrimPrefix(strings.TrimPrefix(ops[i].File, repo), "/")
+			}
+			an.ChanOps = append(an.ChanOps, ops...)
+			an.RequestHelpers = append(an.RequestHelpers, helpers...)
 		}
 		pkgName := l.Pkg.Name()
 		for i, file := range l.Files {
@@ -333,6 +344,7 @@ func Facts(repo string) (string, error) {
 		b.WriteString(leanPageTurns(nil, false))
 		b.WriteString(leanHeldSends(nil, false))
 		b.WriteString(leanWaitFacts(nil, false))
+		b.WriteString(leanChanOps(nil, false))
 		b.WriteString("def cancels : List (String × Bool) := []\n")
 		b.WriteString("def acceptedSizes : List (String × String × String) := []\n")
 		b.WriteString("end XmppModel.Generated.C09\n")
@@ -380,6 +392,8 @@ func Facts(repo string) (string, error) {
 	b.WriteString(leanHeldSends(an.HeldSends, true))
 	sort.SliceStable(an.Waits, func(i, j int) bool { return an.Waits[i].Pkg < an.Waits[j].Pkg })
 	b.WriteString(leanWaitFacts(an.Waits, true))
+	sort.SliceStable(an.ChanOps, func(i, j int) bool { return an.ChanOps[i].Pkg < an.ChanOps[j].Pkg })
+	b.WriteString(leanChanOps(an.ChanOps, true))
 	b.WriteString("/-- context.With… in scope: (function, is `defer cancel()` the next statement) -/\ndef cancels : List (String × Bool) := [")
 	for i, cf := range an.Cancels {
 		if i > 0 {
